@@ -98,7 +98,7 @@ pub fn h_c15_ref_move_row() {
     let (sheet, s2) = (any_u32(), any_u32());
     let m = any_i32_in(1, LAST_ROW);
     let d = any_i32_in(-LAST_ROW, LAST_ROW);
-    assume(d != 0 && 1 <= m + d && m + d <= LAST_ROW);
+    assume((d != 0) & (1 <= m + d) & (m + d <= LAST_ROW));
     let s = print(&r, &ctx, sheet, &DisplaceData::RowMove { sheet: s2, row: m, delta: d });
     let nrow = if sheet == s2 { sigma_move(row, m, d) } else { row };
     check("C15.ref_row_move.follows_cell", designates(&s, &r, &ctx, nrow, col));
@@ -110,7 +110,7 @@ pub fn h_c15_ref_move_column() {
     let (sheet, s2) = (any_u32(), any_u32());
     let m = any_i32_in(1, LAST_COLUMN);
     let d = any_i32_in(-LAST_COLUMN, LAST_COLUMN);
-    assume(d != 0 && 1 <= m + d && m + d <= LAST_COLUMN);
+    assume((d != 0) & (1 <= m + d) & (m + d <= LAST_COLUMN));
     let s = print(&r, &ctx, sheet, &DisplaceData::ColumnMove { sheet: s2, column: m, delta: d });
     let ncol = if sheet == s2 { sigma_move(col, m, d) } else { col };
     check("C15.ref_col_move.follows_cell", designates(&s, &r, &ctx, row, ncol));
